@@ -309,6 +309,20 @@ func c12Value(c *Ctx, cfg *GenCfg) (T, ap.Item) {
 			}
 		}
 	}
+	// a value without any language reference ("" rather than "-") among several language values
+	if f, ok := tr["f"].(T); ok {
+		for _, name := range []string{"Name", "Summary", "Content"} {
+			if nm, ok := f[name].(T); ok && c.R.Chance(40) {
+				l := asList(nm["nlv"])
+				if len(l) >= 2 {
+					l2 := append([]interface{}{}, l...)
+					e := asList(l2[c.R.Intn(len(l2))])
+					l2[c.R.Intn(len(l2))] = []interface{}{"", e[1]}
+					nm["nlv"] = l2
+				}
+			}
+		}
+	}
 	it := buildItem(tr)
 	plantCapacity(it)
 	return tr, it
@@ -388,7 +402,49 @@ func init() {
 	}
 }
 
+// c12Cached: a value DECODED from a document is kept (as a server caches an actor) while unrelated documents
+// are decoded, sequentially and from several goroutines; it must not change.
+func c12Cached() string {
+	cached, err := ap.UnmarshalJSON([]byte(`{"type":"Person","id":"https://example.com/~alice","name":"Alice","summary":"a cached actor with some text","preferredUsername":"alice","contentMap":{"en":"hello","fr":"bonjour"}}`))
+	if err != nil || cached == nil {
+		return ""
+	}
+	before := snap(cached)
+	j0, _ := ap.MarshalJSON(cached)
+	for _, d := range c12Docs {
+		_, _ = ap.UnmarshalJSON(d)
+	}
+	if d := before.diff(snap(cached)); d != "" {
+		return "a decoded value kept alive changed when unrelated documents were decoded afterwards: " + d
+	}
+	var wg sync.WaitGroup
+	for g := 0; g < 6; g++ {
+		wg.Add(1)
+		go func(g int) {
+			defer wg.Done()
+			for k := 0; k < 10; k++ {
+				if g%2 == 0 {
+					_, _ = ap.UnmarshalJSON(c12Docs[(k+g)%len(c12Docs)])
+				} else {
+					_, _ = ap.MarshalJSON(cached)
+				}
+			}
+		}(g)
+	}
+	wg.Wait()
+	if d := before.diff(snap(cached)); d != "" {
+		return "a decoded value kept alive changed while unrelated documents were decoded concurrently: " + d
+	}
+	if j1, _ := ap.MarshalJSON(cached); string(j0) != string(j1) {
+		return "a decoded value kept alive encodes differently after unrelated documents were decoded"
+	}
+	return ""
+}
+
 func c12Concurrent(it, other ap.Item, ops []roOp) string {
+	if v := c12Cached(); v != "" {
+		return v
+	}
 	seq := make([]string, len(ops))
 	for i, op := range ops {
 		guard(func() { seq[i] = op.run(it, other) })
